@@ -4935,11 +4935,11 @@ _ADD = {
  "C01": " Added after the seeded rounds: combine's Data / completion and merge's completion to the sink are behind counters whose reaching the bound implies that every member greeted (GRD-once:nothing-before-all-greeted); all state cells are per subscription (SCP-sub premise).",
  "C02": " Added after the seeded rounds: take's end flag is raised first by both disposal arms; flatten's inner cell must not read 'no inner' while a new inner is being subscribed (ORD:inner-marked-active-at-subscribe) - its first-subscription instance fails on this tree: recorded finding KF-10 (a first, late-greeting inner is invisible to the outer's completion test).",
  "C03": " Added after the seeded rounds: merge's over-flag is raised first on sink Error, sink Terminate and member Error; every greeting of an upstream is recorded in the cell the talkback reads; all state cells are per subscription.",
- "C04": " Added after the seeded rounds: over-flag writers (merge), end-flag arms (take), every-greeting-recorded (ORD-store-pub), state-per-subscription premise.",
- "C05": " Added after the seeded rounds: share's Error arm must evaluate the fan-out loop on every path, unconditionally.",
- "C07": " Added after the seeded rounds: every cell of the five operators is per subscription; take's talkback raises the end flag first in both disposal arms. Paths that find the output already over and do nothing are not counted.",
+ "C04": " Added after the seeded rounds: over-flag writers (merge), end-flag arms (take), every-greeting-recorded (ORD-store-pub), state-per-subscription premise. Rounds 5-7: share's sink list is not emptied while the terminal fan-out is still serving sinks unless the talkback's upstream Terminate is tied to having removed its own sink (ORD-clear-emit:list-not-empty-during-terminal-fanout); a relay skipped because the talkback cell was seen empty is accepted only where every clear of that cell is legitimate (tb_clears_legit).",
+ "C05": " Added after the seeded rounds: share's Error arm must evaluate the fan-out loop on every path, unconditionally. Round 6: flatten must not complete while an inner it has subscribed is alive (ORD-pending-inner; the first-subscription instance is KF-10, recorded here too).",
+ "C07": " Added after the seeded rounds: every cell of the five operators is per subscription; take's talkback raises the end flag first in both disposal arms. Paths that find the output already over and do nothing are not counted. Rounds 5-6: the claim may also be a hand-written compare_exchange loop (cas-claim clauses) or a fetch_update on a counter of remaining slots (count-down dual).",
  "C09": " Added after the seeded rounds: every member greeting records its talkback in the cell the sink-facing talkback reads (ORD-store-pub:every-greeting-recorded).",
- "C11": " Added after the seeded rounds: Pull routing must consult the inner cell first and may drop a Pull only when both cells were seen empty; ORD:inner-marked-active-at-subscribe (switch instance holds; first-subscription instance is the recorded finding KF-10).",
+ "C11": " Added after the seeded rounds: Pull routing must consult the inner cell first and may drop a Pull only when both cells were seen empty; ORD:inner-marked-active-at-subscribe (switch instance holds; first-subscription instance is the recorded finding KF-10). Round 5: the sink's Error / Terminate reaches both levels (REL-bcast:disposal-reaches-both-levels).",
  "C15": " Added after the seeded rounds: all six cells are per subscription (SCP-sub premise).",
  "C17": " Added after the seeded rounds: the counters the K-count / K-arith discharges rely on are per subscription (SCP-sub premise).",
 }
